@@ -448,6 +448,27 @@ def escape_text_rule(r, ctx):
     return b
 
 
+def in_variant(b, block, place, variant, gs=None):
+    """Is `block` entered only while `place` (as described) holds `variant`? However the test is written: `match place { V => .. }`,
+    `matches!(place, V)` / `let f = matches!(..); if f` (a hoisted flag: dom_guards adds what it implies), `place == E::V` through a derived
+    PartialEq, or `place != E::V` on the false edge."""
+    import re as _re
+    from mirlib import dom_guards
+    gs = dom_guards(b, block) if gs is None else gs
+    pd = _re.escape(place)
+    for d, l, _ in gs:
+        if _re.match(r"^disc\(\(?\*?%s\)?\)$" % pd, d) and set(l.split("|")) == {variant}:
+            return True
+        m = _re.match(r"^(eq|ne)\((.*)\)$", d)
+        if m and l in ("true", "false"):
+            args = m.group(2)
+            has_place = _re.search(r"(^|[ (&*,])%s($|[ ),])" % pd, args) is not None
+            has_var = _re.search(r"::%s\(\)" % _re.escape(variant), args) is not None
+            if has_place and has_var and (l == "true") == (m.group(1) == "eq"):
+                return True
+    return False
+
+
 def guard_mentions(b, block, needles, control=True):
     """Does the execution of `block` depend on a test that involves one of `needles` (substrings of field / function names)? Looks at the
     description of every controlling test and - for a test of a hoisted value (`let dispatch = cfg.flag || state == X; if dispatch {..}`) - at
